@@ -244,17 +244,21 @@ def history_replay(hist, label):
 
 
 def _walk_job(job):
-    dot, flavour, max_groups = job
+    dot, flavour, max_groups, tours = job
     adapter = GroupAdapter() if flavour == "grouped" else MsgAdapter(flavour)
-    res = graphwalk.walk(dot, adapter, max_groups=max_groups,
-                         skip_label=(lambda l: l.startswith(("OpUpdateData", "OpRefresh"))) if adapter.kind == "grouped" else None)
+    skip = (lambda l: l.startswith(("OpUpdateData", "OpRefresh"))) if adapter.kind == "grouped" else None
+    if tours:
+        # large graphs: edge-covering tours (one real object carried along a long path) instead of one fresh object per group
+        res = graphwalk.tour(dot, adapter, max_steps_per_run=300, max_total=max_groups, skip_label=skip)
+    else:
+        res = graphwalk.walk(dot, adapter, max_groups=max_groups, skip_label=skip)
     return flavour, res.__dict__
 
 
-def run_walks(rep, dot, flavours, max_groups=None):
+def run_walks(rep, dot, flavours, max_groups=None, tours=False):
     import multiprocessing
     with multiprocessing.get_context("fork").Pool(len(flavours)) as pool:
-        results = pool.map(_walk_job, [(dot, f, max_groups) for f in flavours])
+        results = pool.map(_walk_job, [(dot, f, max_groups, tours) for f in flavours])
     for flavour, r in results:
         rep.notes.setdefault("walks", []).append({"container": flavour, "graph_states": r["graph_states"], "graph_edges": r["graph_edges"],
                                                    "reached_states": r["states"], "groups_exercised": r["groups"],
@@ -425,7 +429,7 @@ def run(rep):
             if r2.violated != "Coherent":
                 raise tlc.TlcError(f"vacuity self-test: deviation {dev} does not violate Coherent (got {r2.violated})")
             rep.notes.setdefault("deviations_shown_to_violate_Coherent", []).append(dev)
-        run_walks(rep, dot, ["generic", "request", "decoded", "grouped"])
+        run_walks(rep, dot, ["generic", "request", "decoded", "grouped"], tours=rep.tier != "quick")
     finally:
         tlc.cleanup(wd)
     rep.exhaustive = True
